@@ -17,6 +17,10 @@ class Boom(Exception):
     pass
 
 
+class Abort(BaseException):  # like KeyboardInterrupt: not an Exception subclass
+    pass
+
+
 def mksys(variant, V, R, phases):
     """variant A: battery B is the only source; variant B: two sources, the battery is the second one."""
     if variant == "A":
@@ -64,6 +68,8 @@ def run_seq(variant, phname, seq, cutoff=3.0, cap0=0.01, V0=3.7, R0=0.1, fault=N
         idx[0] += 1
         if a == "X":
             raise Boom()
+        if a == "Y":
+            raise Abort()
         if a in TERM:
             if TERM[a] == "capzero":
                 st[0] = 0.0
@@ -85,6 +91,8 @@ def run_seq(variant, phname, seq, cutoff=3.0, cap0=0.01, V0=3.7, R0=0.1, fault=N
         try:
             log = s.batt_life("B", cutoff=cutoff, pfunc=pf, dfunc=df)
         except Boom as e:
+            exc = e
+        except Abort as e:
             exc = e
         except Exception as e:
             exc = e
